@@ -217,6 +217,8 @@ pub fn judge_unit(doc: &Doc, legend: &[String], result: &Value, unit: Unit) -> R
         prev_end_off = end;
         let piece = match by_start.get(&off) {
             Some(p) if p.end == end => *p,
+            // (a `//` comment may be reported with or without the line break that ends it)
+            Some(p) if p.trivia == Some(TriviaKind::Comment) && doc.text[p.start..].starts_with("//") && (doc.text[p.end..end.max(p.end)] == *"\n" || doc.text[p.end..end.max(p.end)] == *"\r\n") => *p,
             _ => {
                 return Err((
                     "not-a-lexeme".into(),
